@@ -21,7 +21,11 @@ def parseAuth (s : String) : Option Auth :=
 
 def parseRes (s : String) : Option Res :=
   match s.splitOn ":" with
-  | ["unknown"] => some .unknown
+  | ["unknown"] => some (.unknown [] [] 0)
+  | ["no", p, n, ttl] =>       -- ok = false with an identity filled in
+    match parseHexArg p, parseHexArg n, ttl.toInt? with
+    | some p, some n, some ttl => some (.unknown p n ttl)
+    | _, _, _ => none
   | ["id", p, n, ttl] =>
     match parseHexArg p, parseHexArg n, ttl.toInt? with
     | some p, some n, some ttl => some (.identity p n ttl)
